@@ -260,6 +260,47 @@ class ModelBatch:
         return len(self.reqs) - 1
 
 
+    def wf(self, tree, n):
+        """request for the driver's well-formedness certificate `Taste.pltWFB` of the plotfile `tree` with the levels
+        0..n-1 looked at (hypothesis of the completeness theorem `C03.well_formed_accepted`); None when the tree does
+        not have the line structure of the renderers at all"""
+        from .writers import header_request
+        content = header_request(tree.get("Header", b"").decode("latin1"))
+        if content is None:
+            return None
+        content = dict(content); content.pop("op", None)
+        level_content = []
+        for l in content["levels"]:
+            text = tree.get(l["dir"] + "/Cell_H")
+            if text is None:
+                return None
+            L = text.decode("latin1").split("\n")
+            try:
+                N = int(L[4].split()[0].lstrip("("))
+                rows = []
+                for k in range(N):
+                    a, b, _ = L[5 + k].split()
+                    f = L[7 + N + k].split()
+                    rows.append({"lo": [int(x) for x in a.strip("()").split(",")], "hi": [int(x) for x in b.strip("()").split(",")],
+                                 "file": f[1], "offset": int(f[2])})
+                level_content.append({"rows": rows, "extra": L[8 + 2 * N:]})
+            except (ValueError, IndexError):
+                return None
+        dirs = {}
+        for rel, data in tree.items():
+            d, fn = os.path.split(rel)
+            if not d:
+                continue
+            e = dirs.setdefault(d, {"cellh": None, "files": {}})
+            if fn == "Cell_H":
+                e["cellh"] = self.key(data)
+            else:
+                e["files"][fn] = self.key(data)
+        self.reqs.append({"op": "wf_plt", "content": content, "n": n, "level_content": level_content,
+                          "header": self.key(tree.get("Header", b"")), "dirs": dirs})
+        return len(self.reqs) - 1
+
+
 # --------------------------------------------------------------------------- reading after acceptance (C20)
 
 def named_fab(data, lo, hi):
